@@ -14,8 +14,9 @@ COLS = {
 }
 # entity -> to-one relationships (name -> target entity)
 TO_ONE = {
-    "post": {"author": "author"},
-    "author": {"country": "country"},
+    # `home` is one relationship NAME on two entities leading to two different tables
+    "post": {"author": "author", "home": "country"},
+    "author": {"country": "country", "home": "region"},
     "comment": {"post": "post", "author": "author"},
     "country": {"region": "region"},      # the only NOT NULL foreign key of the schema
     "tag": {}, "region": {},
@@ -56,11 +57,11 @@ def canonical_instance():
             patterns.append(list(combo))
     # authors: country NULL / set; ages 0/5
     inst["author"] = [
-        {"id": 1, "name": "x", "age": 0, "country_id": 1},
-        {"id": 2, "name": "y", "age": 5, "country_id": 2},
-        {"id": 3, "name": "x", "age": 5, "country_id": None},
-        {"id": 4, "name": "zed", "age": 0, "country_id": 3},
-        {"id": 5, "name": "o'k", "age": 5, "country_id": 2},   # author without posts
+        {"id": 1, "name": "x", "age": 0, "country_id": 1, "home_id": 2},
+        {"id": 2, "name": "y", "age": 5, "country_id": 2, "home_id": None},
+        {"id": 3, "name": "x", "age": 5, "country_id": None, "home_id": 1},
+        {"id": 4, "name": "zed", "age": 0, "country_id": 3, "home_id": 1},
+        {"id": 5, "name": "o'k", "age": 5, "country_id": 2, "home_id": 2},   # author without posts
     ]
     pid = cid = 0
     tag_by_weight = {0: [1, 4], 5: [2, 3]}
@@ -68,7 +69,7 @@ def canonical_instance():
         pid += 1
         author = [1, 2, 3, 4, None][i % 5]
         inst["post"].append({"id": pid, "title": STRS[i % len(STRS)], "rating": [0, 5][i % 2],
-                             "author_id": author})
+                             "author_id": author, "home_id": [2, None, 1, 3][(i // 2) % 4]})
         for j, v in enumerate(pat):
             cid += 1
             inst["comment"].append({"id": cid, "text": STRS[(i + j) % len(STRS)], "score": v,
@@ -98,13 +99,15 @@ def random_instance(rng):
                                 "region_id": rng.randint(1, nr)})
     for i in range(na):
         inst["author"].append({"id": i + 1, "name": rng.choice(STRS), "age": rng.choice(INTS),
-                               "country_id": rng.choice([None] + list(range(1, nc + 1)))})
+                               "country_id": rng.choice([None] + list(range(1, nc + 1))),
+                               "home_id": rng.choice([None] + list(range(1, nr + 1)))})
     for i in range(nt):
         inst["tag"].append({"id": i + 1, "label": rng.choice(STRS), "weight": rng.choice(INTS)})
     cid = 0
     for i in range(npost):
         inst["post"].append({"id": i + 1, "title": rng.choice(STRS), "rating": rng.choice(INTS),
-                             "author_id": rng.choice([None] + list(range(1, na + 1)))})
+                             "author_id": rng.choice([None] + list(range(1, na + 1))),
+                             "home_id": rng.choice([None] + list(range(1, nc + 1)))})
         for _ in range(rng.choice([0, 0, 1, 2, 3])):
             cid += 1
             inst["comment"].append({"id": cid, "text": rng.choice(STRS), "score": rng.choice(INTS),
